@@ -48,6 +48,10 @@ def is_lt(ch):
 def is_id_start(ch):
     if ch == '$' or ch == '_':
         return True
+    if ord(ch) > 0xffff:
+        # ES5 source text is a sequence of UTF-16 code units (clause 6): a character outside the BMP is a
+        # surrogate pair, and surrogates (category Cs) are not identifier characters
+        return False
     return unicodedata.category(ch) in ('Lu', 'Ll', 'Lt', 'Lm', 'Lo', 'Nl')
 
 
@@ -56,6 +60,8 @@ def is_id_part(ch):
         return True
     if ch in u'\u200c\u200d':
         return True
+    if ord(ch) > 0xffff:
+        return False
     return unicodedata.category(ch) in ('Mn', 'Mc', 'Nd', 'Pc')
 
 
